@@ -24,7 +24,8 @@ Definition obs_ok (tab : list (float * (float * float * float * float))) (par : 
            | HBuild, PRes ok | HBuildFinal, PRes ok => ok
            | _, PNone => true
            | _, _ => false end)
-  | XGet h => (w, match r with PVals v => all2 PrimFloat.eqb (cell_get (cells w) (hcell w h)) v | _ => false end)
+  | XGet h => (w, match r with PVals v => all2 (fun a b => PrimFloat.eqb a b || (PrimFloat.is_nan a && PrimFloat.is_nan b)) (cell_get (cells w) (hcell w h)) v
+                      | _ => false end)       (* a NaN that was set reads back as a NaN *)
   | XExec c =>
       (w, match hexec fops (ftrig tab) par w c (mkState n probe), r with
           | Ok s, PState true v => vclose (4 * amp_tol (probe ++ v))%float (vec s) v
